@@ -691,6 +691,7 @@ func (w *World) resetScenario(id string) {
 	w.closeStores()
 	w.reuseOpts = false
 	w.peerOpts = nil
+	w.unserved = nil
 	w.blocks.Reset()
 	w.net.ResetLinks()
 	w.mu.Lock()
